@@ -125,7 +125,9 @@ def parse_date_delta(value):
         return parse_date(value)
     else:
         try:
-            return _now() + timedelta(seconds=value)
+            # like parse_date: an aware UTC datetime (_now() is naive local
+            # wall-clock time, which serialize_date would take for UTC)
+            return _now().astimezone(UTC) + timedelta(seconds=value)
         except OverflowError:
             # more seconds than a timedelta / datetime can hold
             return None
